@@ -169,7 +169,8 @@ class SecureLimits(Contract):
         vc.fin_bounds.append(D)
         lim = SArr.fresh('limits', (D, 2), 'real')
         s = NS(D=D, lim=lim, lim0=lim.snapshot())
-        return s, (make_object('NDimBoundingBox'), lim), {}
+        # as in the constructor at the time of the call: dim, rotation, center are set, the rest is not yet
+        return s, (region_self(D, without=('limits', 'rotation_inv', 'volume')), lim), {}
 
     def requires(self, s):
         return [s.D >= 0, forall_range(0, s.D, lambda i: z3.And(s.lim0.at(i, 0) <= 0, s.lim0.at(i, 1) >= 0), 'i')]
@@ -245,7 +246,7 @@ class ComputeVolume(Contract):
         vc.fin_bounds.append(D)
         lim = SArr.fresh('limits', (D, 2), 'real')
         s = NS(D=D, lim=lim.snapshot())
-        return s, (make_object('NDimBoundingBox', attrs=dict(limits=lim)),), {}
+        return s, (region_self(D, attrs=dict(limits=lim), without=('volume',)),), {}
 
     def requires(self, s):
         # class invariant established by _secure_limits (contract SecureLimits)
@@ -670,7 +671,7 @@ class Pdf(Contract):
         def contains(self_, point):
             cur().oblige('call-pre[contains receives the evaluated point]', z3.BoolVal(point is theta))
             return SBool(INSIDE)
-        return s, (make_object('NDimBoundingBox', attrs=dict(volume=SReal(V)), methods=dict(contains=contains)), theta), {}
+        return s, (region_self(D, attrs=dict(volume=SReal(V)), methods=dict(contains=contains)), theta), {}
 
     def requires(self, s):
         return [s.D >= 0, s.V > 0]         # class invariant: contract ComputeVolume
@@ -953,6 +954,50 @@ def same_point(arg, D, co):
     return z3.And(a.shape[0] == D, forall_range(0, D, lambda k: a.at(k) == co(k), 'k'))
 
 
+class Unmodelled:
+    """an attribute that exists on the real object but that the analysed functions have no business with: any use is outside the subset"""
+
+    def __init__(self, what):
+        self.__dict__['_what'] = what
+
+    def _no(self, *a, **kw):
+        raise OutOfSubset('use of %s, which the contract does not model' % self._what)
+    __getattr__ = __call__ = __getitem__ = __len__ = __iter__ = __bool__ = _no
+
+
+class _ProgressBar:
+    def __getattr__(self, k):
+        return lambda *a, **kw: None
+
+
+def posterior_self(vc, D, attrs, methods=None):
+    """stub `self` carrying EVERY attribute RomcPosterior.__init__ sets (a body that reads one of them must not fall out of the subset):
+    the optimisation bounds left_lim / right_lim are case-split into None and symbolic (D,) arrays, surrogate_used into False / True
+    unless the contract fixes it; attributes the property does not speak about are Unmodelled."""
+    bounds = vc.fork_values('bounds', ['none', 'given'])
+    a = dict(regions=Unmodelled('self.regions'), funcs=Unmodelled('self.funcs'), objectives_actual=Unmodelled('self.objectives_actual'),
+             objectives_surrogate=Unmodelled('self.objectives_surrogate'), objectives_local=Unmodelled('self.objectives_local'),
+             nuisance=Unmodelled('self.nuisance'), prior=Unmodelled('self.prior'),
+             eps_filter=SReal(z3.Real('eps_filter')), eps_region=SReal(z3.Real('eps_region')), eps_cutoff=SReal(z3.Real('eps_cutoff')),
+             left_lim=None if bounds == 'none' else SArr.fresh('left_lim', (D,), 'real'),
+             right_lim=None if bounds == 'none' else SArr.fresh('right_lim', (D,), 'real'),
+             dim=SInt(D) if isinstance(D, z3.ExprRef) else D, parallelize=False, partition=None, progress_bar=_ProgressBar())
+    if 'surrogate_used' not in attrs:
+        a['surrogate_used'] = vc.fork_values('surrogate_used', [False, True])
+    a.update(attrs)
+    return make_object('RomcPosterior', attrs=a, methods=methods)
+
+
+def region_self(D, attrs=None, methods=None, without=()):
+    """stub NDimBoundingBox carrying every attribute its constructor sets (symbolic, dimension D), minus `without`"""
+    a = dict(dim=SInt(D) if isinstance(D, z3.ExprRef) else D, rotation=SArr.fresh('rotation', (D, D), 'real'), center=SArr.fresh('center', (D,), 'real'),
+             limits=SArr.fresh('self_limits', (D, 2), 'real'), rotation_inv=SArr.fresh('rotation_inv', (D, D), 'real'), volume=SReal(z3.Real('self_volume')))
+    for k in without:
+        a.pop(k)
+    a.update(attrs or {})
+    return make_object('NDimBoundingBox', attrs=a, methods=methods)
+
+
 class Seq(Sym):
     """python list of n opaque objects (objective functions, regions): len and indexing; `make(i)` builds the stub of element i"""
 
@@ -1013,7 +1058,7 @@ class _Counting(Contract):
                 return SBool(INr(i))
             return make_object('NDimBoundingBox', methods=dict(contains=contains))
         # class invariant of RomcPosterior: one objective and one region per accepted problem
-        s.self = make_object('RomcPosterior', attrs=dict(funcs=Seq(n, func, 'funcs'), regions=Seq(n, region, 'regions'), eps_cutoff=SReal(eps)))
+        s.self = posterior_self(vc, D, dict(funcs=Seq(n, func, 'funcs'), regions=Seq(n, region, 'regions'), eps_cutoff=SReal(eps)))
         return s, (s.self, theta), {}
 
     def requires(self, s):
@@ -1115,8 +1160,8 @@ class PdfUnnormSinglePoint(Contract):
                 return SInt(value)
             return m
         prior = PriorStub(lambda row: same_point(row, D, lambda k: th0.at(k)), lambda: PR)
-        s.self = make_object('RomcPosterior', attrs=dict(prior=prior, surrogate_used=self.surrogate),
-                             methods=dict(_sum_over_indicators=counter(CNT_I, '_sum_over_indicators'),             # contract SumOverIndicators
+        s.self = posterior_self(vc, D, dict(prior=prior, surrogate_used=self.surrogate),
+                                methods=dict(_sum_over_indicators=counter(CNT_I, '_sum_over_indicators'),             # contract SumOverIndicators
                                           _sum_over_regions_indicators=counter(CNT_RI, '_sum_over_regions_indicators')))   # contract SumOverRegionsIndicators
         return s, (s.self, theta), {}
 
@@ -1295,7 +1340,7 @@ class WorkerComputeWeight(Contract):
         region = make_object('NDimBoundingBox', methods=dict(pdf=pdf))
         prior = PriorStub(at_draw, lambda: PJ(s.j))
         args = (SInt(z3.Int('i')), theta, region, prior, func, SReal(eps), SInt(n2))
-        return s, (make_object('RomcPosterior'), args), {}
+        return s, (posterior_self(vc, D, dict(prior=prior, eps_cutoff=SReal(eps))), args), {}
 
     def requires(self, s):
         return [s.n2 >= 0, s.D >= 1]
@@ -1366,8 +1411,7 @@ class PosteriorSample(Contract):
                 return SReal(F2(i, s.j))
             return f
         prior = PriorStub(lambda row: same_point(row, D, lambda k: TH3(s.i, s.j, k)), lambda: P2(s.i, s.j))
-        s.self = make_object('RomcPosterior', attrs=dict(regions=Seq(N, region, 'regions'), funcs=Seq(N, func, 'funcs'), prior=prior,
-                                                         eps_cutoff=SReal(eps), parallelize=False))
+        s.self = posterior_self(vc, D, dict(regions=Seq(N, region, 'regions'), funcs=Seq(N, func, 'funcs'), prior=prior, eps_cutoff=SReal(eps), parallelize=False))
         return s, (s.self, SInt(n2)), dict(seed=vc.fork_values('seed', [None, SInt(z3.Int('seed'))]))
 
     def requires(self, s):
@@ -1528,7 +1572,7 @@ def replay_refuted(cname, rf):
             surr = [True] if 'surrogate' in cname else [False] if 'actual' in cname else [False, True]
             r = dict(found=False, searched='dims 2, 1, 3; seeds 0-3')
             for D, sd, su in [(D, sd, su) for D in (2, 1, 3) for sd in range(4) for su in surr]:
-                f = b.check_posterior(dict(function=fn, D=D, seed=sd, N=3, surrogate_used=su, eps=0.8, n2=3))
+                f = b.check_posterior(dict(function=fn, D=D, seed=sd, N=3, surrogate_used=su, eps=0.8, n2=3, bounds='tight'))
                 if f:
                     r = dict(found=True, input=f['input'], observed=f['what'])
                     break
